@@ -329,7 +329,7 @@ Definition renew_one (cx : Ctx) (m : RenewMsg) (sigdid : string) (data : string)
   let total := dec_mul_int (dec_mul_int (dec_mul_int PRICE (i64 (o_replica o))) (i64 (o_size o))) (i64 (rn_duration m)) in
   if total <? 0 then panic "negative decimal coin amount" else
   let amount := ceil_coin total in
-  let no := mkOrder (rn_creator m) (o_owner o) (rn_provider m) (o_cid o) (rn_duration m) (o_status o) (o_replica o)
+  let no := mkOrder (rn_creator m) (m_owner meta) (rn_provider m) (o_cid o) (rn_duration m) (o_status o) (o_replica o)
                     (o_shards o) amount (o_size o) 3 (cx_height cx) (u64 (rn_timeout m)) (o_data o) (o_commit o) PRICE "" in
   r <- try_ (renew_order no) ;;
   match r with
